@@ -159,9 +159,21 @@ func createASTTypeExpr(pkg string, t types.Type, varPool *VarPool, imports map[s
 	case *types.Signature:
 		funcFields := make([]*ast.Field, 0, typ.Params().Len())
 		for i := 0; i < typ.Params().Len(); i++ {
-			expr, err := createASTTypeExpr(pkg, typ.Params().At(i).Type(), varPool, imports)
+			paramType := typ.Params().At(i).Type()
+			// The last parameter of a variadic function has type []T and is spelled ...T
+			var variadicElem types.Type
+			if typ.Variadic() && i == typ.Params().Len()-1 {
+				if slice, ok := paramType.(*types.Slice); ok {
+					variadicElem = slice.Elem()
+					paramType = variadicElem
+				}
+			}
+			expr, err := createASTTypeExpr(pkg, paramType, varPool, imports)
 			if err != nil {
 				return nil, fmt.Errorf("param %d: %w", i, err)
+			}
+			if variadicElem != nil {
+				expr = &ast.Ellipsis{Elt: expr}
 			}
 			funcFields = append(funcFields, &ast.Field{
 				Names: []*ast.Ident{ast.NewIdent(fmt.Sprintf("arg%d", i))},
